@@ -154,6 +154,9 @@ struct Case {
     mid: [Vec<Vec<String>>; 2],
     child: Vec<Vec<String>>,
     during: Vec<Vec<String>>,
+    /// `A:` mutators of the FIRST member of the innermost pipeline (kind `pipeL`: `{ A-ops } | : | { child }`): a second
+    /// process that lives, and changes its own state, at the same time as the child; its output goes nowhere
+    first: Vec<Vec<String>>,
 }
 
 impl Case {
@@ -194,12 +197,26 @@ fn parse_case(text: &str) -> Option<Case> {
                 }
                 c.kinds.push(toks[0].clone())
             }
-            "P" | "C" | "W" | "M" | "N" => {
+            "P" | "C" | "W" | "M" | "N" | "A" => {
                 render_op(&toks)?;
                 // `bg` is not for W: it would change `$!`, which the parent is about to `wait` for
                 let noisy = toks[0] == "raise" || toks[0] == "local" || (tag == "W" && toks[0] == "bg");
                 let exits = toks[0] == "exit";
-                if toks[0] == "yield" && tag != "W" {
+                if toks[0] == "yield" && !(tag == "W" || tag == "A" || tag == "C") {
+                    return None;
+                }
+                if tag == "A" {
+                    // silent mutators that cannot fail, and scheduling points
+                    let ok = is_in(&toks[0], &["set", "export", "fn", "alias", "umask", "cd", "yield"])
+                        || (toks[0] == "trap" && toks[1] != "EXIT")
+                        || (toks[0] == "fdw" && toks[1] != "20" && toks[1] != "10");
+                    if !ok {
+                        return None;
+                    }
+                    c.first.push(toks);
+                    continue;
+                }
+                if is_in(&toks[0], &["pl", "cs", "hd"]) && tag != "C" {
                     return None;
                 }
                 match tag {
@@ -216,6 +233,9 @@ fn parse_case(text: &str) -> Option<Case> {
         }
     }
     if c.kinds.is_empty() || c.kinds.len() > 3 {
+        return None;
+    }
+    if !c.first.is_empty() && c.kinds.last().map(|s| s.as_str()) != Some("pipeL") {
         return None;
     }
     if !c.during.is_empty() && c.kinds[0] != "async" {
@@ -286,6 +306,10 @@ fn render_op(t: &[String]) -> Option<String> {
         // snapshot the child is printing through a pipeline (seen with `( : ); probe TY`: that is how the different
         // placements were checked to give different interleavings)
         ("yield", 1) => "( : )".to_string(),
+        // commands of the innermost child ('C' phase only) that need new descriptors
+        ("pl", 1) => ": | :".to_string(),
+        ("cs", 1) => ": \"$(:)\"".to_string(),
+        ("hd", 1) => "probe THD <<E\nx\nE".to_string(),
         _ => return None,
     })
 }
@@ -304,6 +328,7 @@ fn wrap(kind: &str, body: &str, during: &str) -> String {
         "subst" => format!("probe SUBST \"$(\n{body}\n)\""),
         "pipeF" => format!("{{\n{body}\n}} | cat | cat"),
         "pipeM" => format!(": | {{\n{body}\n}} | cat"),
+        "pipeL" if !during.is_empty() => format!("{{\n{during}}} | : | {{\n{body}\n}}"),
         "pipeL" => format!(": | : | {{\n{body}\n}}"),
         _ => format!("{{\n{body}\n}} &\n{during}wait $!"),
     }
@@ -324,7 +349,7 @@ fn level_body(c: &Case, j: usize) -> String {
             snap(&format!("C{j}"), true),
             ops_text(&c.mid[j - 1]),
             snap(&format!("B{j}"), true),
-            wrap(&c.kinds[j], &level_body(c, j + 1), ""),
+            wrap(&c.kinds[j], &level_body(c, j + 1), &(if j + 1 == depth && c.kinds[j] == "pipeL" { ops_text(&c.first) } else { String::new() })),
             snap(&format!("A{j}"), true)
         )
     }
@@ -333,7 +358,8 @@ fn level_body(c: &Case, j: usize) -> String {
 /// The shell source of a case. `control` = same program with an empty child body.
 fn render(c: &Case, control: bool) -> String {
     let inner = if control { ":".to_string() } else { level_body(c, 1) };
-    let mut body = format!("{}\nprobe ST", wrap(&c.kinds[0], &inner, &ops_text(&c.during)));
+    let extra = if c.kinds.len() == 1 && c.kinds[0] == "pipeL" { ops_text(&c.first) } else { ops_text(&c.during) };
+    let mut body = format!("{}\nprobe ST", wrap(&c.kinds[0], &inner, &extra));
     if c.in_fn && c.kinds.iter().any(|k| k == "subst") {
         // `typeset -fp` prints a command substitution verbatim: keep the body of `mainf` free of newlines
         // inside `$( )` so that the function listing stays one line per function
@@ -2138,7 +2164,9 @@ fn main() {
                 }
             }
         }
-        let reps = if o.thorough() { 4 } else { 1 };
+        // one repetition in both tiers (the thorough tier adds the depth-3 nests and all families per nest): 4
+        // repetitions cost ~3 CPU-minutes of the thorough run on a loaded machine
+        let reps = 1;
         for rep in 0..reps {
             for (n, kinds) in nests.iter().enumerate() {
                 for fam in 0..NFAM {
@@ -2190,6 +2218,13 @@ fn main() {
             "C:nofile 4; C:fdr 3; C:fdd 5 1",
             "C:fdr 3; C:nofile 4; C:fdw 5 f1",
             "C:nofile 4; C:fdw 3 f1; C:umask 027; C:cd /d1; C:nofile unlimited; C:fdw 5 f2",
+            // commands that need NEW descriptors, started by the child under its lowered limit: a pipeline and a
+            // command substitution need two (`Pipe::pipe`), a here-document one below the limit and one at >= 10
+            "C:nofile 4; C:pl; C:set va 1",
+            "C:fdw 3 f1; C:nofile 4; C:cs; C:set va 1",
+            "C:nofile 4; C:hd; C:pl",
+            "C:hd; C:pl; C:cs; C:nofile 4; C:hd; C:cs",
+            "C:nofile 16; C:fdw 3 f1; C:hd; C:pl; C:cs; C:umask 027",
         ];
         for (v, sc) in scripts.iter().enumerate() {
             let k2 = KINDS[(i + v + 2) % nk];
